@@ -194,6 +194,8 @@ class DataType(metaclass=_DataTypeMeta):
         data = stream.read(size)
         if not data:
             raise BufferEmptyError()
+        if len(data) < size:
+            raise DataError(f"Not enough data, expected {size} bytes but only {len(data)} remain")
         return data
 
     def __repr__(self) -> str:
